@@ -119,6 +119,11 @@ func runC16(c c16Case) *vlib.Outcome {
 	var gens []*c16Gen
 	current := map[string]*c16Gen{}
 	var blocked []c16Span // suspended or paused spans
+	// spans in which the cron is certainly suspended: from the moment the
+	// loop has taken the suspend command (queued behind earlier pauses) to
+	// the moment Resume is called
+	var suspendedSure []c16Span
+	var suspendEffective *time.Time
 	var suspendedSince *time.Time
 	var busyUntil time.Time // the loop is busy with queued pauses until then
 	remBeforeDue, replaced := false, false
@@ -216,9 +221,21 @@ func runC16(c c16Case) *vlib.Outcome {
 			if suspendedSince == nil {
 				t := now
 				suspendedSince = &t
+				eff := now
+				if busyUntil.After(eff) {
+					eff = busyUntil
+				}
+				eff = eff.Add(time.Millisecond)
+				suspendEffective = &eff
 			}
 			time.Sleep(time.Microsecond) // let the loop take the command
 		case "resume":
+			if suspendEffective != nil {
+				if now.After(*suspendEffective) {
+					suspendedSure = append(suspendedSure, c16Span{*suspendEffective, now})
+				}
+				suspendEffective = nil
+			}
 			cr.Resume(ctx)
 			time.Sleep(time.Microsecond)
 			if suspendedSince != nil {
@@ -248,6 +265,12 @@ func runC16(c c16Case) *vlib.Outcome {
 		}
 	}
 	// let everything that is due fire
+	if suspendEffective != nil {
+		if t := time.Now(); t.After(*suspendEffective) {
+			suspendedSure = append(suspendedSure, c16Span{*suspendEffective, t})
+		}
+		suspendEffective = nil
+	}
 	if suspendedSince != nil {
 		cr.Resume(ctx)
 		time.Sleep(time.Microsecond)
@@ -297,6 +320,14 @@ func runC16(c c16Case) *vlib.Outcome {
 	}
 	for _, g := range gens {
 		sort.Slice(g.fires, func(i, j int) bool { return g.fires[i].Before(g.fires[j]) })
+		for _, f := range g.fires {
+			for _, sp := range suspendedSure {
+				if f.After(sp.from) && f.Before(sp.to) {
+					o.Fail("CRON_FIRED_WHILE_SUSPENDED", "gen%d fired at +%v while the cron was suspended (+%v .. +%v); %s", g.n, f.Sub(time.Unix(1257894000, 0)),
+						sp.from.Sub(time.Unix(1257894000, 0)), sp.to.Sub(time.Unix(1257894000, 0)), hist())
+				}
+			}
+		}
 		if g.oneShot {
 			if len(g.fires) > 1 {
 				o.Fail("CRON_ONESHOT_TWICE", "one-shot gen%d fired %d times; %s", g.n, len(g.fires), hist())
